@@ -457,6 +457,10 @@ template<class L, class R>
                 verify3<ResSh>(
                         "wrapper_shl", expect, exact, region, id(), [&] { return ci::to_rep(XS(a) << YS(b)); }, [&] { return ci::to_rep(XT(a) << YT(b)); },
                         [&] { return ci::to_rep(XR(a) << YR(b)); });
+                // ... and with a BARE built-in count of type R (its full value, not a narrowed one, must be judged)
+                verify3<ResSh>(
+                        "wrapper_shl_builtin_count", expect, exact, region, id(), [&] { return ci::to_rep(XS(a) << b); }, [&] { return ci::to_rep(XT(a) << b); },
+                        [&] { return ci::to_rep(XR(a) << b); });
                 using RC = cnl::rounding_integer<R, cnl::native_rounding_tag>;
                 verify3<ResSh>(
                         "wrapper_shl_rounding_count", expect, exact, region, id(), [&] { return ci::to_rep(XS(a) << RC(b)); }, [&] { return ci::to_rep(XT(a) << RC(b)); },
